@@ -284,6 +284,9 @@ def main():
         elif undecided:
             for r in undecided:
                 print('UNDECIDED property=%s unit=%s: %s' % (pid, r['unit'], r.get('reason')))
+                ws = r.get('witness_search')
+                if ws:
+                    print('  bounded stand-in on the real code: %s' % (ws.get('searched') or ws.get('error') or ws.get('note') or ws))
             rc = 2
         else:
             print('OK property=%s: %d obligations discharged in %.1fs' % (pid, ev['coverage']['discharged'], wall))
